@@ -535,6 +535,10 @@ Definition iint (B : Type) := (Z * option Z * list (Z * B) * bool)%type.  (* ind
 Inductive case :=
 (* Pool._get_tasks(func, l, size): the batches, None = ValueError *)
 | CChunks (l : list Z) (size : Z) (impl : option (list (list Z)))
+(* what a worker computes for one task: mapstar((f, chunk)) with f x = a*x + b, and
+   starmapstar((g, pairs)) with g x y = a*x + b*y *)
+| CMapstar (a b : Z) (c : list Z) (impl : list Z)
+| CStarmapstar (a b : Z) (c : list (Z * Z)) (impl : list Z)
 (* Pool._map_async(stub with p workers, l, chunksize): None = raised;
    otherwise chunksize, batches, number_left, ready, in cache, value buffer *)
 | CAsync (l : list Z) (cs : option Z) (p : Z)
@@ -562,6 +566,10 @@ Definition check_case (c : case) : Z :=
   match c with
   | CChunks l size impl =>
       code (opt_eqb (list_eqb (list_eqb Z.eqb)) (get_tasks l size) impl) true
+  | CMapstar a b c impl =>
+      code (list_eqb Z.eqb (mapstar (fun x => a * x + b) c) impl) true
+  | CStarmapstar a b c impl =>
+      code (list_eqb Z.eqb (starmapstar (fun x y => a * x + b * y) c) impl) true
   | CAsync l cs p impl =>
       match map_async (E := Z) (None : val) l cs p, impl with
       | None, None => 0
